@@ -43,3 +43,42 @@ def core_queries(c, q, modes=False):
         call(c.parse_curie, q, strict=True)
         call(c.compress_strict, q)
         call(c.expand_strict, q)
+
+
+def grow_while_asking(api, recs, d, rng, ask, strings):
+    """Register `recs` one by one on an empty converter; before every registration call ask(c, s) for every s.
+
+    URI / CURIE synonyms sometimes arrive later through a merge, registrations go through add_record or add_prefix.
+    A lookup that remembers an answer (or a miss) from before a record arrived only gives itself away when the same
+    string is asked again afterwards - which the caller does on the returned converter.
+    """
+    c = api.Converter([], delimiter=d)
+    steps = []
+    for r in rng.sample(list(recs), k=len(recs)):
+        if (r.usyn or r.psyn) and rng.random() < 0.5:
+            steps.append((r._replace(usyn=(), psyn=()), False))
+            steps.append((r, True))  # the full record merges into its bare form
+        else:
+            steps.append((r, False))
+    order = list(range(len(steps)))
+    rng.shuffle(order)
+    # a merge step must come after its bare form: re-sort minimally
+    final = []
+    placed = set()
+    for i in order:
+        r, is_merge = steps[i]
+        if is_merge and (i - 1) not in placed:
+            final.append(i - 1)
+            placed.add(i - 1)
+        if i not in placed:
+            final.append(i)
+            placed.add(i)
+    for i in final:
+        r, is_merge = steps[i]
+        for s in strings:
+            ask(c, s)
+        if is_merge or rng.random() < 0.5:
+            outcome_of(c.add_record, gen.mk_record(api, r), merge=is_merge)
+        else:
+            outcome_of(c.add_prefix, r.prefix, r.uri_prefix, list(r.psyn), list(r.usyn))
+    return c
